@@ -130,3 +130,30 @@ extern "C" int fclose(FILE *f)
   }
   return real(f);
 }
+
+// Removal of a watched file: counted only on request (CV_FAULT_AT_REMOVE = die at the n-th removal, before it is done),
+// so that the numbering of the other operations stays what it was.
+static long remove_count = 0;
+static long fault_at_remove() { static long k = getenv("CV_FAULT_AT_REMOVE") ? atol(getenv("CV_FAULT_AT_REMOVE")) : -1; return k; }
+
+extern "C" int remove(const char *path)
+{
+  static int (*real)(const char *) = (int (*)(const char *)) dlsym(RTLD_NEXT, "remove");
+  if (fault_at_remove() > 0 && watched_path(path)) {
+    remove_count++;
+    log_op("remove", path, nullptr, remove_count);
+    if (remove_count == fault_at_remove()) _exit(77);
+  }
+  return real(path);
+}
+
+extern "C" int unlink(const char *path)
+{
+  static int (*real)(const char *) = (int (*)(const char *)) dlsym(RTLD_NEXT, "unlink");
+  if (fault_at_remove() > 0 && watched_path(path)) {
+    remove_count++;
+    log_op("unlink", path, nullptr, remove_count);
+    if (remove_count == fault_at_remove()) _exit(77);
+  }
+  return real(path);
+}
